@@ -354,8 +354,38 @@ func WorkerMain(t *testing.T) {
 		}
 	}
 
+	fill := func() {
+		res.Evals = st.Evals
+		res.Nontrivial, res.Shapes = nil, nil
+		for k := range st.Nontrivial {
+			res.Nontrivial = append(res.Nontrivial, k)
+		}
+		for k := range st.Shapes {
+			res.Shapes = append(res.Shapes, k)
+		}
+		res.Faults, res.Probes, res.Strata = st.Faults, st.Probes, st.Strata
+		res.SimNanos = st.SimNanos
+		res.Samples = st.Samples
+		res.WallS = time.Since(start).Seconds()
+	}
+	// what the watchdog saves when it abandons a run (this goroutine is stuck in
+	// that run then, so nothing else touches the counters)
+	partialResult = func() []byte {
+		fill()
+		b, _ := json.Marshal(res)
+		return b
+	}
+
 	completed := true
-	for run := worker; run < total; run += nworkers {
+	first := worker
+	if st := envInt("VERIF_START", 0); st > first {
+		// resuming after an abandoned run: keep this worker's stride
+		first = st
+		for first%nworkers != worker%nworkers {
+			first++
+		}
+	}
+	for run := first; run < total; run += nworkers {
 		if time.Now().After(deadline) {
 			completed = false
 			break
@@ -369,6 +399,10 @@ func WorkerMain(t *testing.T) {
 		}
 		if journal != nil {
 			journal.WriteAt([]byte(fmt.Sprintf("%-20d %-20d %-200s\n", seed, run, overString(tape.Over))), 0)
+		}
+		if fs := envInt("VERIF_FAKE_STALL", -1); fs == run {
+			curRunStart.Store(time.Now().UnixNano())
+			select {} // test aid for the watchdog/resume path: this run never ends
 		}
 		er := execute(t, p, tape, tier)
 		account(er)
@@ -406,18 +440,9 @@ func WorkerMain(t *testing.T) {
 		res.SweepDone = true
 	}
 
+	partialResult = nil
 	res.Completed = completed
-	res.Evals = st.Evals
-	for k := range st.Nontrivial {
-		res.Nontrivial = append(res.Nontrivial, k)
-	}
-	for k := range st.Shapes {
-		res.Shapes = append(res.Shapes, k)
-	}
-	res.Faults, res.Probes, res.Strata = st.Faults, st.Probes, st.Strata
-	res.SimNanos = st.SimNanos
-	res.Samples = st.Samples
-	res.WallS = time.Since(start).Seconds()
+	fill()
 	if out != "" {
 		b, _ := json.Marshal(res)
 		if err := os.WriteFile(out, b, 0o644); err != nil {
@@ -500,8 +525,10 @@ func sanitizeName(s string) string {
 // startWatchdog aborts the process (exit 2: harness trouble, never a
 // violation) when a single run makes no progress in real time, which means the
 // fake clock is frozen.
+var partialResult func() []byte
+
 func startWatchdog(out string) {
-	limit := time.Duration(envInt("VERIF_RUN_WALL_LIMIT", 120)) * time.Second
+	limit := time.Duration(envInt("VERIF_RUN_WALL_LIMIT", 90)) * time.Second
 	go func() {
 		for {
 			time.Sleep(time.Second)
@@ -511,6 +538,9 @@ func startWatchdog(out string) {
 				buf := make([]byte, 1<<20)
 				buf = buf[:runtimeStackAll(buf)]
 				os.Stderr.Write(buf)
+				if f := partialResult; f != nil && out != "" {
+					os.WriteFile(out+".partial", f(), 0o644)
+				}
 				os.Exit(2)
 			}
 		}
